@@ -22,7 +22,7 @@ The property you must break:
 
 Task: change the NON-TEST source code in {wt} so that this property no longer holds, while
  1. the tree still compiles: `go build ./...`;
- 2. the existing test suite still passes: run the tests of every package you touched and of the packages that import them, and then the whole suite once: `go test -vet=off -count=1 ./... 2>&1 | grep -v '^ok\\|no test files' | tail -30` (takes a few minutes; the machine is shared and busy, be patient; a handful of tests are known to be flaky on an unchanged tree — if something fails, re-run that package with your change reverted (`git apply -R` of your saved diff, never `git stash`) to see whether it also fails without your change);
+ 2. the existing test suite still passes: run the tests of every package you touched and of every package that (transitively) imports them — find them with `go list -deps`/`go list -f '{{.ImportPath}} {{.Imports}}' ./...` or simply `go test -vet=off -count=1 ./pkg/... ./internal/... 2>&1 | grep -v '^ok\\|no test files' | tail -30` restricted to the relevant sub-trees (the machine is shared and very busy: do NOT run the whole `./...` suite more than once, be patient; a handful of timing-sensitive tests are known to be flaky under load on an unchanged tree — if something fails, re-run that single package with your change reverted (`git apply -R` of your saved diff, never `git stash`) to see whether it also fails without your change);
  3. the bug needs something SPECIFIC to manifest — a particular interleaving, a crash or fault at a particular point, a multi-step sequence of operations, an unusual input, or two cooperating sites that each look fine alone — not something ordinary use (or any existing test) would expose at once;
  4. it is realistic: the kind of mistake a competent developer could make in a refactor, an optimisation or a "simplification"; keep the diff small (roughly ≤ 40 changed lines), do not add dead code or comments that announce the bug, do not edit existing tests.
 Also write a demonstration: a new Go test file (placed in the appropriate package of the worktree; name it zz_seed_demo_test.go) or a small program that FAILS with your change and PASSES without it. Verify both directions yourself (save your change with `git diff > /tmp/seed/<id>.patch`, undo it with `git apply -R`, run the demo → pass; re-apply with `git apply`, run → fail; NEVER use `git stash`: the stash is shared between all worktrees of this repository and other people are using it). The demo may use unexported identifiers, fakes and deterministic scheduling hooks that already exist in the code.
